@@ -11,7 +11,7 @@ import PosterModel.Lemmas.UserAlloc
 import PosterModel.Lemmas.UserWorld
 
 namespace Poster
-open World
+open World User
 
 /-- `allocPid` returns the current counter value and advances the shared counter by one `nextPid` step;
     nothing else in the world changes. -/
